@@ -85,6 +85,19 @@ def specs_for(tier, seed):
                     hooks.append(h)
                 add("three names three types", id_sets()["three names three types"], hooks=hooks, hooks_fail=not allow,
                     meta={"family": "challenge hook ends badly", "type": t, "exit": code, "signal": bool(extra), "allow_failure": allow})
+    # one script that serves a challenge type AND file events (deploy the proof, push new files to the front-end): it is still the
+    # challenge hook of its type - and its clean counterpart likewise
+    for t in ("http-01", "dns-01", "tls-alpn-01"):
+        hooks = []
+        for h in standard_hooks():
+            h = dict(h)
+            if h["name"] == "chall-" + t:
+                h["type"] = list(h["type"]) + ["file-post-create", "file-post-edit"]
+            elif h["name"] == "clean-" + t:
+                h["type"] = list(h["type"]) + ["file-pre-edit"]
+            hooks.append(h)
+        add("three names three types", id_sets()["three names three types"], hooks=hooks,
+            meta={"family": "challenge hook that also has file event types", "type": t})
     # the account key was changed in the configuration but the CA refuses (or never answers) the roll-over: whatever the daemon
     # does next, a proof it deploys has to be the one for the key the CA holds for the account
     for fault in ("acme:unauthorized:403", "acme:badPublicKey:400", "drop_after"):
